@@ -74,16 +74,60 @@ def _inv_domain(tier, seed):
 _R[NT + "inverse_mod"].domain = _inv_domain
 
 
+# The Jacobi symbol J(a | n) for odd n >= 1 as a specification function, with the facts of lean/NumberTheory.lean
+# (each a Mathlib lemma about `jacobiSym`, whose DEFINITION is the product of the Legendre symbols over the prime
+# factorisation of n - exactly the right-hand side of the property)
+JAC = z3.Function("jacobi_symbol", I_, I_, I_)
+
+
+def jac_(a, n):
+    if isinstance(a, int) and isinstance(n, int):
+        return legendre_oracle(a, n) if n >= 3 else 1
+    return SInt(JAC(T(a), T(n)))
+
+
+def jac_axioms():
+    a, b, n = z3.Int("jac!a"), z3.Int("jac!b"), z3.Int("jac!n")
+    M = lambda t, mm: sym.MOD(sym.canon_mod_arg(t, mm), mm)
+    odd = lambda v: z3.And(v >= 1, v % 2 == 1)
+    return [
+        # jacobiSym.trichotomy
+        z3.ForAll([a, n], z3.Implies(odd(n), z3.Or(JAC(a, n) == 0, JAC(a, n) == 1, JAC(a, n) == -1)), patterns=[JAC(a, n)], qid="jac_range"),
+        # jacobiSym.mod_left (stated on the engine's `a mod n` term)
+        z3.ForAll([a, n], z3.Implies(odd(n), JAC(sym.MOD(a, n), n) == JAC(a, n)), patterns=[JAC(sym.MOD(a, n), n), z3.MultiPattern(JAC(a, n), sym.MOD(a, n))], qid="jac_mod_left"),
+        # jacobiSym.zero_left (1 < n), jacobiSym.one_left
+        z3.ForAll([n], z3.Implies(z3.And(odd(n), n > 1), JAC(0, n) == 0), patterns=[JAC(0, n)], qid="jac_zero"),
+        z3.ForAll([n], z3.Implies(odd(n), JAC(1, n) == 1), patterns=[JAC(1, n)], qid="jac_one"),
+        # jacobiSym.mul_left with a factor 2 (the only products the algorithm forms), jacobiSym.at_two + ZMod.chi_8
+        z3.ForAll([a, n], z3.Implies(odd(n), JAC(2 * a, n) == JAC(2, n) * JAC(a, n)), patterns=[JAC(2 * a, n)], qid="jac_mul_two"),
+        z3.ForAll([n], z3.Implies(odd(n), JAC(2, n) == z3.If(z3.Or(n % 8 == 1, n % 8 == 7), 1, -1)), patterns=[JAC(2, n)], qid="jac_at_two"),
+        # jacobiSym.quadratic_reciprocity_if (a, n odd and positive)
+        z3.ForAll([a, n], z3.Implies(z3.And(odd(a), odd(n)), JAC(a, n) == z3.If(z3.And(a % 4 == 3, n % 4 == 3), -1, 1) * JAC(n, a)),
+                  patterns=[JAC(a, n)], qid="jac_reciprocity"),
+        # for a prime modulus the Jacobi symbol is the Legendre symbol: -1 exactly for the non-squares
+        # (jacobiSym.legendreSym.to_jacobiSym, legendreSym.eq_neg_one_iff)
+        z3.ForAll([a, n], z3.Implies(z3.And(PRIME(n), n >= 3), (JAC(a, n) == -1) == z3.Not(QR(sym.MOD(a, n), n))), patterns=[z3.MultiPattern(JAC(a, n), PRIME(n))], qid="jac_legendre"),
+    ]
+
+
 @contract(NT + "jacobi", props=["C15", "C08"], a=Int, n=Int)
 def _(c):
     c.requires(lambda n: And_(n >= 3, eq(n % 2, 1)))
-    c.loop(0, invariant=[lambda a1, e, a, n: And_(a1 >= 1, e >= 0, a1 <= a)], decreases=lambda a1: a1)
+    c.setup = lambda ex, env: setattr(ex, "extra_axioms", jac_axioms())
+
+    def inv(ex, a1, e, a, n, old_a):
+        # J(a | n) == J(2 | n)^e * J(a1 | n), with J(2 | n)^2 == 1; ground instance of mul_two for the next halving
+        two = jac_(2, n)
+        ex.pc.append(z3.Implies(T(a1) % 2 == 0, JAC(T(a1), T(n)) == JAC(2, T(n)) * JAC(T(a1) / 2, T(n))))
+        return And_(a1 >= 1, e >= 0, a1 <= a, a >= 2, a < n, eq(jac_(a, n), If_(eq(e % 2, 0), 1, two) * jac_(a1, n)))
+    c.loop(0, invariant=[inv], decreases=lambda a1: a1)
     c.returns(lambda ex: ex.fresh_int("jac"))
     c.ensures(lambda result: Or_(eq(result, -1), eq(result, 0), eq(result, 1)), "range")
-    # functional correctness for prime moduli (Legendre symbol) is what square_root_mod_prime relies on; it is NOT proved
-    # here (bounded stand-in): it is stated as a separate, assumed clause so that callers name it in their evidence
-    c.assumed_ensures = [lambda a, n, result: Implies_(prime_(n), And_(Implies_(eq(result, -1), Not_(qr_(imod_uf(a, n), n))),
-                                                                      Implies_(Not_(eq(result, -1)), qr_(imod_uf(a, n), n))))]
+    c.ensures(lambda a, n, result: eq(result, jac_(a, n)), "is-the-Jacobi-symbol")
+    # what square_root_mod_prime relies on: for a prime modulus the result is -1 exactly for the non-residues
+    # (stated under `result == J(a | n)`, the clause proved just above, so that the Legendre fact is instantiated on that term)
+    c.ensures(lambda a, n, result: Implies_(And_(prime_(n), eq(result, jac_(a, n))), And_(Implies_(eq(result, -1), Not_(qr_(imod_uf(a, n), n))),
+                                                            Implies_(Not_(eq(result, -1)), qr_(imod_uf(a, n), n)))), "minus-one-iff-non-residue-for-prime-moduli")
 
 
 def legendre_oracle(a, n):
